@@ -45,9 +45,12 @@ Record sbytes := mkSB { sb_buf : rfile; sb_rolled : bool; sb_max : nat; sb_synce
 Definition sb_init (max : nat) : sbytes := mkSB rf_empty false max 0.
 Definition sb_with (s : sbytes) (f : rfile) : sbytes := mkSB f (sb_rolled s) (sb_max s) (sb_synced s).
 (* buffer.seek(...): moves the position and flushes *)
+(* seek(pos, mode): if mode == SEEK_SET and pos < 0: raise ValueError; return buffer.seek(pos, mode) *)
 Definition sb_seek (s : sbytes) (off : Z) (wh : nat) : sbytes * fobs :=
-  let '(b, o) := call (sb_buf s) (Seek off wh) in
-  (mkSB b (sb_rolled s) (sb_max s) (length (rf_data b)), o).
+  if Nat.eqb wh 0 && (off <? 0)%Z then (s, OErr ValueError)
+  else
+    let '(b, o) := call (sb_buf s) (Seek off wh) in
+    (mkSB b (sb_rolled s) (sb_max s) (length (rf_data b)), o).
 Definition sb_seek0 (s : sbytes) (pos : nat) : sbytes := fst (sb_seek s (Z.of_nat pos) 0).
 
 (* rollover(): tmp = TemporaryFile(); pos = buffer.tell(); tmp.write(buffer.getvalue());
@@ -321,7 +324,7 @@ Definition ss_len (s : sstring) : sstring * nat :=
 (* seek(pos, mode) -> tell() *)
 Definition ss_seek (s : sstring) (off : Z) (mode : nat) : sstring * fobs :=
   match mode with
-  | 0 => if (off <? 0)%Z then (s, OErr model_err)
+  | 0 => if (off <? 0)%Z then (s, OErr ValueError)        (* raise ValueError("Negative seek position") *)
          else let s' := ss_seek_set s (Z.to_nat off) in (s', ONat (ss_tell s'))
   | 1 => if (off <? 0)%Z then (s, OErr model_err)
          else
